@@ -43,7 +43,7 @@ def configs(tier):
     L = []
     # the quick tier runs a representative subset (every mode, 2-5 dims, x as variable, aggregation, fused dims,
     # square meshes, all bins kinds) so that fewer JVMs are started; thorough runs every configuration
-    quick_set = {"L2", "L3", "L3x", "L4", "L4g", "L5", "H3", "H4", "G2a", "G3", "G4"}
+    quick_set = {"L2", "L3", "L3x", "L4", "L4g", "L5", "H2", "H3", "H4", "G2a", "G3", "G4"}
 
     def add(name, q, th, **kw):
         """q, th = (Sub, Stride) for quick / thorough; Stride must stay below the size of the case-number space"""
@@ -69,7 +69,7 @@ def configs(tier):
     add("L5g", (47, 10007), (1, 16127), Sizes=[3, 2, 2, 2, 2], MaxMapped=3, MaskFam="struct", Orders=["none", "sub"], Joins=B2,
         Aggs=["all", "one"], Methods=M2, Errs=E3)
     # --- heat maps
-    add("H2", (1, 7), (1, 1), Sizes=[2, 3], Mode="heat", MaxMapped=1, Aggs=["auto"], Pals=B2)
+    add("H2", (1, 3), (1, 1), Sizes=[2, 3], Mode="heat", MaxMapped=1, Aggs=["auto"], Pals=B2)
     add("H3", (1, 1229), (1, 37), Sizes=[3, 2, 2], Mode="heat", MaxMapped=1, MaskFam="all", Orders=O3, Aggs=["auto"], Pals=B2)
     add("H4", (1, 691), (1, 31), Sizes=[3, 2, 2, 3], Mode="heat", MaxMapped=2, Fuse=True, MaskFam="struct", Orders=O3,
         Aggs=["auto", "all"], Methods=M2, Pals=B2)
@@ -144,6 +144,20 @@ def run_tlc(name, consts, emit, **kw):
 # ---------------------------------------------------------------------------
 # replay of one case into the real code
 
+def _changed(snap, var):
+    """the variable is not bit-for-bit what it was (dtype, dims, values, NaN / inf positions)"""
+    import numpy as np
+
+    a, dt, dims = snap
+    b = var.values
+    if b.dtype != dt or tuple(var.dims) != dims or a.shape != b.shape:
+        return True
+    if a.dtype.kind == "f":
+        return not (np.array_equal(np.isnan(a), np.isnan(b)) and np.array_equal(a, b, equal_nan=True)
+                    and np.array_equal(np.signbit(a), np.signbit(b)))
+    return not np.array_equal(a, b)
+
+
 def _call(args, kw):
     return "infiniplot(ds, %s)" % ", ".join(list(map(repr, args)) + ["%s=%r" % it for it in sorted(kw.items())])
 
@@ -158,7 +172,8 @@ def check_case(case):
 
     ds, args, kw = ipr.build_call(case)
     before = ds.copy(deep=True)
-    raw = {k: np.array(ds[k].values, copy=True) for k in ds.data_vars}
+    # bitwise snapshot of everything the caller owns: data variables and coordinates
+    raw = {k: (np.array(v.values, copy=True), v.values.dtype, tuple(v.dims)) for k, v in ds.variables.items()}
     notes = []
     try:
         with warnings.catch_warnings():
@@ -172,8 +187,7 @@ def check_case(case):
             problems, notes = ipr.compare_heat(case, panels)
         else:
             problems, notes = ipr.compare_lines(case, panels)
-        if not ds.identical(before) or any(
-                not np.array_equal(raw[k], ds[k].values, equal_nan=True) for k in raw):
+        if not ds.identical(before) or set(ds.variables) != set(raw) or any(_changed(raw[k], ds.variables[k]) for k in raw):
             problems.append(("mutated", "the input Dataset was modified by the call"))
         if problems:
             return (problems[0][0], "; ".join(m for _, m in problems[:4]) + "  <- " + _call(args, kw), notes)
